@@ -42,16 +42,6 @@ CANDIDATES = {
         "trace.py --rom FILE on a 128K / +2 machine ('128', '+2' or a 128K snapshot): 'Patch in a ROM at address 0 from this file' has no "
         "effect, the machine's own ROM stays. E.g. a 16K file starting 3E 07 00 (LD A,7 ; NOP): `trace.py --rom my.rom -s 0 -m 2 -v -n 48` "
         "lists '$0000 LD A,$07', the same with 128 lists '$0000 DI ; $0001 LD BC,$692B' (the 128K ROM).",
-    'state-7ffd:c-simulator-keeps-file-paging':
-        "trace.py --state 7ffd=N FILE (128K snapshot whose own 0x7ffd value pages another RAM bank), default C simulator: the option is "
-        "recorded (the snapshot written afterwards says 7ffd=N) but the C simulator keeps executing with the RAM bank / ROM paged in by "
-        "the FILE at 0xC000; with --python the bank selected by N is used. E.g. a 128K .z80 with 7ffd=4 holding LD A,1 ; LD (0xC000),A "
-        "at 0x8000: `trace.py --state 7ffd=1 -s 32768 -S 32773 in.z80 out.z80` writes the 1 into bank 4, `--python` into bank 1.",
-    'python:stats-instructions-fast-loops':
-        "trace.py --stats --python (no -v, -m or -M, so the simulator's fast DJNZ/LDIR loops are on; interrupts disabled in the program): "
-        "'Instructions executed' counts a whole `DJNZ $` / LDIR / LDDR loop as ONE instruction, the C simulator (and the -v listing) count "
-        "every iteration. E.g. raw file F3 06 03 10 FE 00 (DI ; LD B,3 ; DJNZ $ ; NOP): `trace.py -o 32768 --stop 32774 --stats f.bin` says "
-        "'Instructions executed: 6', with --python 4 (both 49 T-states); with --python -m 100 it is 6 again.",
 }
 STRICT = os.environ.get('VERIF_E06_STRICT') == '1'
 NCASES = {'quick': 300, 'thorough': 6000}
